@@ -53,6 +53,18 @@ func GenesisForProfile(profile string, hs uint64) GenesisCfg {
 			p.BlockReward = sdk.Coin{Denom: Denom, Amount: sdk.NewInt(-br)}
 		}
 		p.AnnualPercentageYield = apy.String()
+		// (drawn after everything else, for the same reason) periods at and below the floor of Params.Validate: a halving
+		// period of 1 makes the baseline formula divide by zero, so the floor (> 10) is what keeps the begin-blocker total;
+		// these genesis files are refused (no chain) as long as the floor stands
+		// (their own stream: the configurations that committed replays name by history number stay what they were)
+		// one history in eight is given over to this
+		if r2 := NewStreamRng(hs ^ 0x9e710d); hs%8 == 5 {
+			if r2.Chance(65) {
+				p.HalvingPeriod = []int64{1, 2, 10}[r2.Intn(3)]
+			} else {
+				p.AdjustmentPeriod = []int64{1, 10}[r2.Intn(2)]
+			}
+		}
 		cfg.NodeParams = &p
 		pool := DefaultPool(Denom)
 		pool.TotalReward = sdk.NewInt64Coin(Denom, minted)
